@@ -401,6 +401,16 @@ def apply_fault(tree, fault, path):
         if node.get('direction') != 'out':
             return None
         node['signature']['type_name']['ids'] = arg.split('.')
+    elif kind == 'out-event-valued-case':
+        if node.get('direction') != 'out':
+            return None
+        node['direction'] = arg
+        node['signature']['type_name']['ids'] = ['bool']
+    elif kind == 'out-event-out-param-case':
+        if node.get('direction') != 'out' or not node['signature']['formals']['elements']:
+            return None
+        node['direction'] = arg
+        node['signature']['formals']['elements'][0]['direction'] = 'out'
     elif kind in ('out-event-out-param', 'out-event-inout-param'):
         if node.get('direction') != 'out' or not node['signature']['formals']['elements']:
             return None
